@@ -142,8 +142,11 @@ package hessian
 //@ func (*Encoder).Reset
 //@   covers e
 //@   config nameMap
-//@   assigns e.writer, e.clsDefList, e.refMap
-//@   ensures [C11:enc-reset-state] e.writer == w && len(e.clsDefList) == 0 && mapsize(e.refMap) == 0 && fresh(e.refMap)
+//@   assigns e.writer, e.clsDefList, e.refMap, @opens, @clashes, @tr
+//@   sets @opens = 0
+//@   sets @clashes = 0
+//@   sets @tr = emp
+//@   ensures [C11:enc-reset-state] e.writer == w && len(e.clsDefList) == 0 && mapsize(e.refMap) == 0 && fresh(e.refMap) && e.refMap != nil
 
 //@ func (*Decoder).Reset
 //@   covers d
